@@ -50,6 +50,10 @@ type TreeSpec struct {
 	// Lenient: the node answers eth_getLogs with fromBlock > toBlock with an empty
 	// result (geth answers with an error); the syncers must be correct against both.
 	Lenient bool `json:"node_answers_inverted_log_range_with_nothing,omitempty"`
+	// Released: the keyper releases keys promptly - after every Sync call its own
+	// flag update marks every stored registration as decrypted (the syncers must
+	// treat such rows like any other when they roll back and resync)
+	Released bool `json:"stored_registrations_marked_decrypted_after_every_sync,omitempty"`
 }
 
 type placed struct {
